@@ -76,9 +76,16 @@ def run(rep):
     rep.sample({k: v for k, v in events[0].items()})
     rep.sample({k: v for k, v in [e for e in events if e['origin'].startswith('variant')][3].items()})
     traces = [events[i:i + 3000] for i in range(0, len(events), 3000)]
-    for tup, ti, ei, e in judge.run(rep, 'Trace_RoundTrip', list(enumerate(traces)), 'rt'):
+    verdicts = list(judge.run(rep, 'Trace_RoundTrip', list(enumerate(traces)), 'rt'))
+    failing = {(e['cls'], tup[1], e['origin']) for tup, ti, ei, e in verdicts}
+    for tup, ti, ei, e in verdicts:
         clause = tup[1]
-        field = e['origin'].replace('variant:', '') if e['origin'].startswith('variant:') else e['origin'].split(' ')[0]
+        origin = e['origin']
+        # the twin "observe first, then assign" of a constructor variant that fails the same clause is the same finding
+        if origin.startswith('variant:assigned-after-observing:') and \
+                (e['cls'], clause, origin.replace('assigned-after-observing:', '')) in failing:
+            continue
+        field = origin.replace('variant:', '') if origin.startswith('variant:') else origin.split(' ')[0]
         rep.violation('%s|%s|%s' % (e['cls'], clause, field), '%s: %s (%s; compose %s, parse %s n=%s of %s)' % (
             e['cls'], clause, e['origin'], e['compose'], e['parse'], e['n'], e['wire_len']), e)
     rep.assumptions += ['"constructible" = accepted by the class constructor (attr.evolve); a compose() that raises one of the four '
